@@ -267,7 +267,7 @@ pub fn gen_cfg(prop: &str, seed: u64) -> RunCfg {
             let creations = if !removals.is_empty() && (creations.is_empty() || g.rng.pct(40)) { removals } else { creations };
             if !creations.is_empty() && g.rng.pct(35) {
                 let kinds = ["Other", "PermissionDenied", "StorageFull"];
-                cfg.fault = Some(FaultPlan { op_index: creations[g.rng.below(creations.len())], k: g.rng.range(1, 14) as u64, sticky: false, kind: kinds[g.rng.below(3)].into(), nodes: if g.rng.pct(70) { u64::MAX } else { 1u64 << g.rng.below(nn) } });
+                cfg.fault = Some(FaultPlan { op_index: creations[g.rng.below(creations.len())], k: g.rng.range(1, 14) as u64, sticky: false, kind: kinds[g.rng.below(3)].into(), nodes: if g.rng.pct(70) { u64::MAX } else { 1u64 << g.rng.below(nn) }, handles_only: false });
             }
             cfg
         }
@@ -323,8 +323,48 @@ pub fn gen_cfg(prop: &str, seed: u64) -> RunCfg {
                     }
                 }
             }
+            // C03 only: sometimes a second filesystem instance (transfers across instances take
+            // other code paths than those inside one), and sometimes one underlying call of one
+            // operation fails - a FAILED call must not leave an orphan either
+            let mut specs = vec![spec.clone()];
+            if prop == "C03" && g.rng.pct(12) {
+                specs.push(g.leaf(30));
+                g.nfs = 2;
+                world.m.push(specs[1].view());
+            }
             ops.extend(gen_history(&mut g, &mut world, n, &w));
-            base_cfg(prop, "unrestricted", seed, &mut g, vec![spec], ops)
+            // with two filesystems: end with a transfer of a populated directory ACROSS them, and
+            // usually let a read or write in the middle of that transfer fail
+            let mut forced: Option<usize> = None;
+            if specs.len() == 2 {
+                let (src, dst) = if g.rng.pct(60) { (0usize, 1usize) } else { (1, 0) };
+                let dirs: Vec<String> = world.m[src].t.iter().filter(|(k, v)| !k.is_empty() && matches!(v, Node::Dir) && world.m[src].t.iter().any(|(c, n)| is_under(c, k) && matches!(n, Node::File(b) if !b.is_empty()))).map(|(k, _)| k.clone()).collect();
+                if !dirs.is_empty() {
+                    let d = dirs[g.rng.below(dirs.len())].clone();
+                    let dest = format!("/xfer{}", g.rng.below(100));
+                    let op = if g.rng.pct(50) { Op::CopyDir(P::on(src as u8, &d), P::on(dst as u8, &dest)) } else { Op::MoveDir(P::on(src as u8, &d), P::on(dst as u8, &dest)) };
+                    if matches!(world.clone().apply(&op), Want::Ok(_)) {
+                        world.apply(&op);
+                        ops.push(op);
+                        if g.rng.pct(70) {
+                            forced = Some(ops.len() - 1);
+                        }
+                    }
+                }
+            }
+            let nn = spec.node_count();
+            let mut cfg = base_cfg(prop, "unrestricted", seed, &mut g, specs, ops);
+            if let Some(at) = forced {
+                let kinds = ["Other", "PermissionDenied", "StorageFull"];
+                cfg.fault = Some(FaultPlan { op_index: at, k: g.rng.range(1, 5) as u64, sticky: false, kind: kinds[g.rng.below(kinds.len())].into(), nodes: u64::MAX, handles_only: true });
+            } else if prop == "C03" && g.rng.pct(25) && !cfg.ops.is_empty() {
+                let kinds = ["Other", "PermissionDenied", "StorageFull"];
+                let comp: Vec<usize> = cfg.ops.iter().enumerate().filter(|(_, o)| matches!(o, Op::CreateDirAll(_) | Op::RemoveDirAll(_) | Op::CopyDir(..) | Op::MoveDir(..) | Op::CopyFile(..) | Op::MoveFile(..) | Op::Write { .. })).map(|(i, _)| i).collect();
+                let at = if !comp.is_empty() && g.rng.pct(70) { comp[g.rng.below(comp.len())] } else { g.rng.below(cfg.ops.len()) };
+                let handles_only = g.rng.pct(35);
+                cfg.fault = Some(FaultPlan { op_index: at, k: if handles_only { g.rng.range(1, 6) as u64 } else { g.rng.range(1, 30) as u64 }, sticky: g.rng.pct(20), kind: kinds[g.rng.below(kinds.len())].into(), nodes: if g.rng.pct(70) { u64::MAX } else { 1u64 << g.rng.below(nn) }, handles_only });
+            }
+            cfg
         }
         "C11" if g.rng.pct(7) => {
             // the read-only embedded backend as the SOURCE of copies into a writable filesystem
@@ -424,12 +464,16 @@ pub fn gen_cfg(prop: &str, seed: u64) -> RunCfg {
                 // bias towards composites and towards the end of the history (more state)
                 let comp: Vec<usize> = cfg.ops.iter().enumerate().filter(|(_, o)| matches!(o, Op::CreateDirAll(_) | Op::RemoveDirAll(_) | Op::CopyDir(..) | Op::MoveDir(..) | Op::CopyFile(..) | Op::MoveFile(..) | Op::WalkDir(_) | Op::ReadToString(_))).map(|(i, _)| i).collect();
                 let at = if !comp.is_empty() && g.rng.pct(60) { comp[g.rng.below(comp.len())] } else { g.rng.below(cfg.ops.len()) };
-                cfg.fault = Some(FaultPlan { op_index: at, k: g.rng.range(1, 16) as u64, sticky: g.rng.pct(25), kind: kinds[g.rng.below(kinds.len())].into(), nodes: if g.rng.pct(60) { u64::MAX } else { 1u64 << g.rng.below(nn) } });
+                cfg.fault = Some(FaultPlan { op_index: at, k: g.rng.range(1, 16) as u64, sticky: g.rng.pct(25), kind: kinds[g.rng.below(kinds.len())].into(), nodes: if g.rng.pct(60) { u64::MAX } else { 1u64 << g.rng.below(nn) }, handles_only: false });
             }
             cfg
         }
         "C02" => {
             g.size_profile = 1;
+            if g.rng.pct(12) {
+                // the longest component the host accepts (255 bytes): both backends take it
+                g.names.push("M".repeat(255));
+            }
             let specs = vec![Spec::Mem { pre: vec![] }, Spec::Phys { pre: vec![] }];
             let mut world = World { m: vec![Model::new(), Model::new()], w: Default::default() };
             let n = g.rng.range(4, 30);
@@ -511,6 +555,7 @@ pub fn gen_cfg(prop: &str, seed: u64) -> RunCfg {
                     sticky: g.rng.pct(30),
                     kind: kinds[g.rng.below(kinds.len())].into(),
                     nodes: if g.rng.pct(60) { u64::MAX } else { 1u64 << g.rng.below(nn) },
+                    handles_only: false,
                 });
             }
             cfg
@@ -822,6 +867,7 @@ pub fn gen_cfg(prop: &str, seed: u64) -> RunCfg {
                     sticky: g.rng.pct(40),
                     kind: kinds[g.rng.below(kinds.len())].into(),
                     nodes: if g.rng.pct(50) { u64::MAX } else { 1u64 << g.rng.below(nn) },
+                    handles_only: false,
                 });
             }
             cfg
